@@ -129,7 +129,9 @@ def run(ck: common.Check):
     ]
     ck.assumptions = [
         "MatchRel (coq/Find/Spec.v) is the specification of 'structurally matches': index/size/argument lists are compared "
-        "over the common prefix only (zip truncation: `x = _` matches `x[i, j] = e`; existing behaviour relied upon by "
+        "over the common prefix only (zip truncation: `x = _` matches `x[i, j] = e`, `x[0] = 0.0` matches the scalar `x = 0.0`; "
+        "expression READ patterns are additionally rank-checked unless all their indices are holes (match_idx, /repo 2bbe1c40); "
+        "existing behaviour relied upon by "
         "_replace_writes, part of the spec, flagged here), a statement hole followed by a pattern absorbs statements up to the "
         "FIRST statement matching that pattern (no backtracking), a trailing hole needs at least one statement, a WindowStmt is "
         "matched by an assignment pattern without indices, a WindowExpr by `x[_]`, literals compare by Python == (1 == 1.0 == True), "
@@ -137,7 +139,7 @@ def run(ck: common.Check):
         "one code behaviour is NOT part of the spec and is reported as finding F-C16-2: Call patterns ignore their arguments "
         "(Model.impl_quirks.q_callargs; C16_match_impl_refuted / _partial). Two former deviations (stride(x, 0) acting as "
         "stride(x, _), `_` not honoured in WriteConfig patterns) were repaired in /repo 80472758 / e0571e51; they are kept as "
-        "regression cases (known-witness stream, Proofs_Quirks.regression_*)",
+        "regression cases (known-witness stream, Proofs_Quirks.regression_*), as is the read-rank defect (x[0] matching the read x)",
         "patterns with two adjacent statement holes make Python raise AssertionError; the model treats the look-ahead hole as "
         "non-matching (wf_pats characterises the patterns that cannot assert)",
         "the `#n` / name-shorthand regexes are modelled for ASCII input only",
@@ -319,7 +321,12 @@ def run(ck: common.Check):
 
     # regression cases of the two repaired deviations (F-C16-1 stride-dim0, F-C16-3 writeconfig-wildcard)
     expect = {"stride(A, 0)": "(err SchedulingError)", "stride(A, 1)": "(ok ((N ((body 1) (args 2)))))",
-              "_.a = _": "(ok ((N ((body 0)))))", "Cfg._ = _": "(ok ((N ((body 0)))))", "Cfg.a = _": "(ok ((N ((body 0)))))"}
+              "_.a = _": "(ok ((N ((body 0)))))", "Cfg._ = _": "(ok ((N ((body 0)))))", "Cfg.a = _": "(ok ((N ((body 0)))))",
+              # rank test of expression reads (/repo 2bbe1c40): x[0] must not match the read x nor x[0, 5]
+              "t[0]": "(err SchedulingError)", "A[0]": "(err SchedulingError)", "B[0, 5]": "(err SchedulingError)",
+              "A[0, 0]": "(ok ((N ((body 5) (rhs none) (lhs none)))))", "A[_]": "(ok ((N ((body 5) (rhs none) (lhs none)))))",
+              "A": "(ok ((N ((body 5) (rhs none) (lhs none)))))", "B[0]": "(ok ((N ((body 5) (rhs none) (rhs none)))))",
+              "t[0] = 0.0": "(ok ((N ((body 3)))))"}
     for r in finds:
         if r["stream"] == "known-witness" and r["raw"] in expect:
             okr = norm(r["real"]) == expect[r["raw"]]
